@@ -168,6 +168,8 @@ impl RustCodeGenerator {
     }
 
     fn fmt_const(name: &str, r#type: &RustType, value: &impl Display, indent: usize) -> String {
+        // the named numbers of an OPTIONAL field are plain numbers
+        let r#type = r#type.as_no_option();
         format!(
             "{}pub const {}: {} = {};",
             "    ".repeat(indent),
